@@ -177,6 +177,29 @@ static int buffers(int shard, int nshards)
                         }
                 }
         }
+        /* runs of one byte (1..6 times, alone and inside a text) and all ordered pairs of bytes: sequences that mean something to terminals */
+        {
+                struct wvar v = mkvar(CAT_VAR_BUF_STRING, 12);
+                build(1, &v, 64);
+                for (int x = 1; x < 256; x++, idx++) {
+                        if (idx % nshards != shard || x == '\r') continue;
+                        for (int k = 1; k <= 6; k++)
+                                for (int ctx = 0; ctx < 2; ctx++) {
+                                        memset(b, 0, sizeof b);
+                                        int n = 0;
+                                        if (ctx) b[n++] = 'a';
+                                        for (int i = 0; i < k; i++) b[n++] = (uint8_t)x;
+                                        if (ctx) { b[n++] = '4'; b[n++] = '8'; }
+                                        if (roundtrip(vals, 1)) return 1;
+                                }
+                        for (int y = 1; y < 256; y++) {
+                                if (y == '\r') continue;
+                                memset(b, 0, sizeof b);
+                                b[0] = (uint8_t)x; b[1] = (uint8_t)y; b[2] = (uint8_t)x;
+                                if (roundtrip(vals, 1)) return 1;
+                        }
+                }
+        }
         /* every non-CR, non-NUL byte at every position, data_size up to 64, full length */
         static const int SS[] = {2, 8, 33, 64};
         for (int di = 0; di < 4; di++) {
